@@ -143,14 +143,28 @@ def opSrv (args : List String) (impl : String) : Verdict :=
       let S := memoScheme table
       let t0 := parseTime (kvLookup imp "t0")
       let t1 := parseTime (kvLookup imp "t1")
+      -- per-burst clock brackets and the burst each reply arrived in (parallel to `replies`)
+      let brackets : List (Nat × Nat) := ((kvLookup imp "brackets").splitOn ",").map fun b =>
+        match b.splitOn "-" with
+        | [x, y] => (parseTime x, parseTime y)
+        | _ => (0, 0)
+      let rburst : List Nat := let s := kvLookup imp "rburst"; if s = "-" ∨ s = "" then [] else (s.splitOn ",").map String.toNat!
+      let bracketOf (globalIdx : Nat) : Nat × Nat :=
+        match rburst[globalIdx]? with
+        | some k => (match brackets[k]? with
+          | some (x, y) => if y = 0 then (t0, t1) else (x, y)
+          | none => (t0, t1))
+        | none => (t0, t1)
       -- per client: L1 matching of replies to spec-classified requests
       let perClient (c : Nat) : Option String × Nat × Nat × Nat :=   -- (failure, replies, invalid replies, mays answered)
         let reqs : List ReqInfo := (allDgrams.filter (·.1 = c)).map fun (x : Nat × Bytes) =>
           let p := protoOf x.2
           { proto := p, cls := classifyRequest p srv x.2, bytes := x.2 }
-        let reps := (replies.filter (·.1 = c)).map (·.2)
-        let step (st : List ReqInfo × Option String × Nat) (rep : Bytes) : List ReqInfo × Option String × Nat :=
+        let reps := ((replies.zipIdx).filter (·.1.1 = c)).map fun x => (x.1.2, x.2)
+        let step (st : List ReqInfo × Option String × Nat) (repi : Bytes × Nat) : List ReqInfo × Option String × Nat :=
           let (rs, fail, invalid) := st
+          let rep := repi.1
+          let (t0, t1) := bracketOf repi.2
           let p : Proto := if isIetfDgram rep then .draft13 else .classic
           -- first unmatched request of that protocol for which the spec verifier accepts this reply
           let rec find (pre : List ReqInfo) (l : List ReqInfo) : Option (List ReqInfo × ReqInfo × Nat × Nat) :=
@@ -173,7 +187,7 @@ def opSrv (args : List String) (impl : String) : Verdict :=
               | some e => some e
               | none =>
                 if rep.length > r.bytes.length then some ("C07: reply of " ++ toString rep.length ++ " bytes to a request of " ++ toString r.bytes.length)
-                else if ¬ (t0 < (midp + 1) * unitNs ∧ midp * unitNs ≤ t1) then some ("C11: midpoint " ++ toString midp ++ " is not the server clock in the protocol's unit (harness clock bracket " ++ toString t0 ++ ".." ++ toString t1 ++ " ns)")
+                else if ¬ (t0 < (midp + 1) * unitNs ∧ midp * unitNs ≤ t1) then some ("C11: midpoint " ++ toString midp ++ " is not the server clock in the protocol's unit (harness clock bracket of the burst " ++ toString t0 ++ ".." ++ toString t1 ++ " ns)")
                 else if radi * unitNs ≠ 5000000000 then some ("C11: radius " ++ toString radi ++ " is not five seconds in the protocol's unit")
                 else none
             (rs', fail, invalid)
